@@ -146,11 +146,9 @@ Definition sel_inv (s : sel_state) (mb : list msg) : Prop :=
   receiving_inv (ss_cursors s) mb (ss_receiving s) /\
   cursors_le (ss_cursors s) mb.
 
+(* (a dead process never enters its select again: nothing is claimed about its select state) *)
 Definition Inv (st : proc) : Prop :=
-  match p_sel st with
-  | None => True
-  | Some s => sel_inv s (p_mailbox st)
-  end.
+  p_error st = None -> forall s, p_sel st = Some s -> sel_inv s (p_mailbox st).
 
 Lemma nth_recv_lt : forall srcs r x, nth_recv srcs r = Some x -> r < count_recv srcs.
 Proof.
@@ -443,4 +441,719 @@ Proof.
 Qed.
 
 End OneEntry.
+(* ---------------------------------------------------------------- one entry (Executor::step) *)
+Notation step := (step fix45 verdict_of written).
+Notation apply_event := (apply_event fix45 verdict_of written).
+Notation run := (run fix45 verdict_of written).
+Notation select_spec := (select_spec verdict_of).
+
+(* the start time the entry works with (ensure_select_start_time) *)
+Definition start_of (s : sel_state) (now : Z) : Z :=
+  match ss_start s with Some t => t | None => now end.
+
+Lemma nth_recv_written0 : forall k, nth_recv written (0 + k) = nth_recv written k.
+Proof. reflexivity. Qed.
+
+(* what one pass over the sources of an active select guarantees *)
+Lemma pass_ok s mb aw now :
+  sel_inv s mb ->
+  (forall r m e, ss_receiving s = Some (r, m) -> verdict_of r m <> VdErr e) ->
+  let rr := match ss_receiving s with Some (r, m) => rr_of (verdict_of r m) | None => None end in
+  let s1 := with_start s (Some (start_of s now)) in
+  match process_sources s1 rr (start_of s now) now aw (ss_sources s1) 0 s1 mb with
+  | SComplete v mb' => select_spec written mb aw (start_of s now) now = Complete v mb'
+  | SCalled s' => sel_inv s' mb /\
+                  exists r1 m, ss_receiving s' = Some (r1, m) /\
+                               forall e, verdict_of r1 m = VdErr e ->
+                                         select_spec written mb aw (start_of s now) now = Fail e
+  | SPark s' => select_spec written mb aw (start_of s now) now = Wait /\ sel_inv s' mb
+  | SError e s' => select_spec written mb aw (start_of s now) now = Fail e
+  | SPanic _ => False
+  end.
+Proof.
+  intros (Hsrc & Hlen & Hsk & Hrinv & Hcle) Hnoerr rr s1.
+  assert (Hrr : match ss_receiving s1 with
+                | Some (r0, m0) => (forall e, verdict_of r0 m0 <> VdErr e) /\ rr = rr_of (verdict_of r0 m0)
+                | None => rr = None
+                end).
+  { unfold s1, rr, with_start; cbn [ss_receiving].
+    destruct (ss_receiving s) as [[r0 m0]|] eqn:E; auto. }
+  assert (Hlive : live_ok s1 mb 0 s1).
+  { constructor; auto. left. split; auto. intros; lia. }
+  pose proof (process_sources_ok s1 rr mb Hrr (start_of s now) now aw (ss_sources s1) 0 s1) as H.
+  assert (Hsrc1 : ss_sources s1 = written) by exact Hsrc.
+  rewrite Hsrc1 in H |- *. specialize (H nth_recv_written0 Hlive).
+  unfold select_spec, SelectSpec.select_spec.
+  destruct (process_sources s1 rr (start_of s now) now aw written 0 s1 mb) as [v mb'|s'|s'|e s'|n]; auto.
+  - destruct H as ((G1 & G2 & G3 & G4 & G5 & G6) & Hrest). split; auto.
+    unfold sel_inv. repeat split; auto. congruence.
+  - destruct H as (Hw & (G1 & G2 & G3 & G4 & G5 & G6)). split; auto.
+    unfold sel_inv. repeat split; auto. congruence.
+Qed.
+
+(* an active entry: the process is runnable, alive, still inside its select *)
+Definition active (now : Z) (st : proc) (s : sel_state) : Prop :=
+  p_queued (check_expired now st) = true /\ p_error st = None /\ p_value st = None /\ p_sel st = Some s.
+
+Lemma check_expired_fields now st :
+  p_mailbox (check_expired now st) = p_mailbox st /\ p_awaiting (check_expired now st) = p_awaiting st /\
+  p_sel (check_expired now st) = p_sel st /\ p_value (check_expired now st) = p_value st /\
+  p_error (check_expired now st) = p_error st.
+Proof. unfold check_expired. destruct (_ && _); cbn; auto. Qed.
+
+(* the initial entry *)
+Lemma sel_inv_init now mb :
+  sel_inv {| ss_sources := written; ss_cursors := repeat 0 (count_recv written);
+             ss_start := match pids_of written with [] => Some now | _ => None end;
+             ss_receiving := None |} mb.
+Proof.
+  unfold sel_inv; cbn [ss_sources ss_cursors ss_receiving]. repeat split; auto.
+  - apply repeat_length.
+  - intros r c t _ j m Hj. exfalso. unfold cur_get in Hj.
+    assert (nth r (repeat 0 (count_recv written)) 0 = 0).
+    { destruct (Nat.lt_ge_cases r (count_recv written)).
+      - apply nth_repeat.
+      - apply nth_overflow. rewrite repeat_length. lia. }
+    lia.
+  - intros r. unfold cur_get.
+    assert (nth r (repeat 0 (count_recv written)) 0 = 0).
+    { destruct (Nat.lt_ge_cases r (count_recv written)).
+      - apply nth_repeat.
+      - apply nth_overflow. rewrite repeat_length. lia. }
+    lia.
+Qed.
+
+Lemma Inv_flags st q sl : Inv st -> Inv (set_flags st q sl).
+Proof. unfold Inv. cbn. auto. Qed.
+Lemma Inv_error st e : Inv (set_error st e).
+Proof. unfold Inv. cbn. discriminate. Qed.
+Lemma Inv_awaiting st aw : Inv st -> Inv (set_awaiting st aw).
+Proof. unfold Inv. cbn. auto. Qed.
+Lemma Inv_check_expired now st : Inv st -> Inv (check_expired now st).
+Proof. unfold check_expired. destruct (_ && _); auto. Qed.
+Lemma Inv_wake st : Inv st -> Inv (wake st).
+Proof. unfold wake. destruct (p_selecting st); auto. Qed.
+
+Lemma sel_inv_app s mb m : sel_inv s mb -> sel_inv s (mb ++ [m]).
+Proof.
+  intros (H1 & H2 & H3 & H4 & H5). unfold sel_inv. repeat split; auto.
+  - intros r c t Hs j x Hj Hx.
+    assert (j < length mb) by (specialize (H5 r); lia).
+    rewrite nth_error_app1 in Hx by auto. eapply H3; eauto.
+  - destruct (ss_receiving s) as [[r0 m0]|]; cbn in *; auto.
+    destruct H4 as (c & A & B & C). exists c. repeat split; auto. apply nth_error_app_some. exact C.
+  - intros r. rewrite app_length. specialize (H5 r). lia.
+Qed.
+
+(* An active entry whose popped verdict (if any) is not an error does exactly one of four things,
+   each justified by the specification evaluated on the state at this entry. *)
+Lemma active_entry now st s :
+  Inv st -> active now st s ->
+  (forall r m e, ss_receiving s = Some (r, m) -> verdict_of r m <> VdErr e) ->
+  let st1 := check_expired now st in
+  let spec := select_spec written (p_mailbox st) (p_awaiting st) (start_of s now) now in
+  (exists v mb', spec = Complete v mb' /\ step now st = Val (complete_select fix45 st1 written v mb')) \/
+  (exists s', sel_inv s' (p_mailbox st) /\
+              (exists r1 m, ss_receiving s' = Some (r1, m) /\ forall e, verdict_of r1 m = VdErr e -> spec = Fail e) /\
+              step now st = Val (set_sel st1 (Some s'))) \/
+  (exists s', spec = Wait /\ sel_inv s' (p_mailbox st) /\
+              step now st = Val (set_flags (set_sel st1 (Some s')) false true)) \/
+  (exists e s', spec = Fail e /\
+                step now st = Val (set_flags (set_error (set_sel st1 (Some s')) (PErr e)) false (p_selecting st1))).
+Proof.
+  intros HI (Hq & Herr & Hval & Hsel) Hnoerr st1 spec.
+  destruct (check_expired_fields now st) as (Fmb & Faw & Fsel & Fval & Ferr).
+  fold st1 in Hq, Fmb, Faw, Fsel, Fval, Ferr.
+  assert (Hinv : sel_inv s (p_mailbox st)) by (apply HI; auto).
+  pose proof (pass_ok s (p_mailbox st) (p_awaiting st) now Hinv Hnoerr) as H. cbv zeta in H.
+  assert (Hsrcs : ss_sources (with_start s (Some (start_of s now))) = written) by apply Hinv.
+  unfold Select.step. fold st1. rewrite Hq, Ferr, Herr, Fval, Hval, Fsel, Hsel. cbn [negb].
+  rewrite Fmb, Faw.
+  destruct (ss_receiving s) as [[r0 m0]|] eqn:Ercv.
+  - destruct (verdict_of r0 m0) as [n| |e] eqn:Evd; [| |exfalso; eapply Hnoerr; eauto].
+    + cbn [rr_of] in H. unfold start_of in H |- *.
+      destruct (process_sources _ _ _ _ _ _ _ _ _) as [v mb'|s'|s'|e s'|n']; try contradiction.
+      * left. exists v, mb'. split; auto. unfold with_start; cbn [ss_sources]. rewrite (proj1 Hinv). reflexivity.
+      * right; left. exists s'. destruct H as (A & B). auto.
+      * right; right; left. exists s'. destruct H as (A & B). auto.
+      * right; right; right. exists e, s'. auto.
+    + cbn [rr_of] in H. unfold start_of in H |- *.
+      destruct (process_sources _ _ _ _ _ _ _ _ _) as [v mb'|s'|s'|e s'|n']; try contradiction.
+      * left. exists v, mb'. split; auto. unfold with_start; cbn [ss_sources]. rewrite (proj1 Hinv). reflexivity.
+      * right; left. exists s'. destruct H as (A & B). auto.
+      * right; right; left. exists s'. destruct H as (A & B). auto.
+      * right; right; right. exists e, s'. auto.
+  - unfold start_of in H |- *.
+    destruct (process_sources _ _ _ _ _ _ _ _ _) as [v mb'|s'|s'|e s'|n']; try contradiction.
+    * left. exists v, mb'. split; auto. unfold with_start; cbn [ss_sources]. rewrite (proj1 Hinv). reflexivity.
+    * right; left. exists s'. destruct H as (A & B). auto.
+    * right; right; left. exists s'. destruct H as (A & B). auto.
+    * right; right; right. exists e, s'. auto.
+Qed.
+
+(* ---------------------------------------------------------------- totality + invariance *)
+Lemma step_total now st : Inv st -> exists st', step now st = Val st' /\ Inv st'.
+Proof.
+  intros HI.
+  pose proof (Inv_check_expired now st HI) as HI1.
+  destruct (check_expired_fields now st) as (Fmb & Faw & Fsel & Fval & Ferr).
+  destruct (p_queued (check_expired now st)) eqn:Hq.
+  2:{ unfold Select.step. rewrite Hq. cbn [negb]. eauto. }
+  destruct (p_error st) as [pe|] eqn:Herr.
+  { unfold Select.step. rewrite Hq, Ferr, ?Herr. cbn [negb]. eexists; split; [reflexivity|].
+    apply Inv_flags; auto. }
+  destruct (p_value st) as [v|] eqn:Hval.
+  { unfold Select.step. rewrite Hq, Ferr, ?Herr, Fval, ?Hval. cbn [negb]. eauto. }
+  destruct (p_sel st) as [s|] eqn:Hsel.
+  - destruct (ss_receiving s) as [[r0 m0]|] eqn:Ercv.
+    + destruct (verdict_of r0 m0) as [n| |e] eqn:Evd.
+      3:{ unfold Select.step. rewrite Hq, Ferr, ?Herr, Fval, ?Hval, Fsel, ?Hsel, Ercv, Evd. cbn [negb].
+          eexists; split; [reflexivity|]. apply Inv_flags. apply Inv_error. }
+      all: assert (Hne : forall r m e, ss_receiving s = Some (r, m) -> verdict_of r m <> VdErr e)
+          by (intros r m e Heq; rewrite Ercv in Heq; inversion Heq; subst; rewrite Evd; discriminate).
+      all: destruct (active_entry now st s HI (conj Hq (conj Herr (conj Hval Hsel))) Hne)
+          as [(v & mb' & _ & ->)|[(s' & Hi' & _ & ->)|[(s' & _ & Hi' & ->)|(e & s' & _ & ->)]]].
+      all: eexists; split; [reflexivity|].
+      all: try (unfold Inv; cbn; intros _ s2 Hs2; discriminate Hs2).
+      all: try (unfold Inv; cbn; intros _ s2 Hs2; inversion Hs2; subst; rewrite Fmb; exact Hi').
+      all: try (apply Inv_flags; apply Inv_error).
+    + assert (Hne : forall r m e, ss_receiving s = Some (r, m) -> verdict_of r m <> VdErr e)
+          by (intros r m e Heq; rewrite Ercv in Heq; discriminate Heq).
+      destruct (active_entry now st s HI (conj Hq (conj Herr (conj Hval Hsel))) Hne)
+          as [(v & mb' & _ & ->)|[(s' & Hi' & _ & ->)|[(s' & _ & Hi' & ->)|(e & s' & _ & ->)]]].
+      all: eexists; split; [reflexivity|].
+      all: try (unfold Inv; cbn; intros _ s2 Hs2; discriminate Hs2).
+      all: try (unfold Inv; cbn; intros _ s2 Hs2; inversion Hs2; subst; rewrite Fmb; exact Hi').
+      all: try (apply Inv_flags; apply Inv_error).
+  - unfold Select.step. rewrite Hq, Ferr, ?Herr, Fval, ?Hval, Fsel, ?Hsel. cbn [negb].
+    eexists; split; [reflexivity|].
+    unfold initialize_select.
+    pose proof (sel_inv_init now (p_mailbox (check_expired now st))) as H.
+    destruct (pids_of written) eqn:Ep.
+    + unfold Inv; cbn. intros _ s2 Hs2. inversion Hs2; subst. exact H.
+    + unfold Inv; cbn. intros _ s2 Hs2. inversion Hs2; subst. exact H.
+Qed.
+
+Lemma notify_result_Inv p v st : Inv st -> Inv (notify_result fix45 p v st).
+Proof.
+  intros HI. unfold notify_result. apply Inv_wake.
+  destruct (fix45 && negb (aw_has p (p_awaiting st))); auto.
+Qed.
+
+Lemma apply_event_total ev st : Inv st -> exists st', apply_event ev st = Val st' /\ Inv st'.
+Proof.
+  intros HI. destruct ev as [now|m|p v|p| |p r]; cbn [Select.apply_event].
+  - apply step_total; auto.
+  - eexists; split; [reflexivity|]. apply Inv_wake.
+    unfold Inv; cbn. intros He s Hs. apply sel_inv_app. apply HI; auto.
+  - eexists; split; [reflexivity|]. apply notify_result_Inv; auto.
+  - eexists; split; [reflexivity|]. destruct (fix45 && negb (aw_has p (p_awaiting st))); auto. apply Inv_error.
+  - eexists; split; [reflexivity|]. apply Inv_wake; auto.
+  - destruct (aw_has p (p_awaiting st)); [destruct r|]; eexists; split; try reflexivity; auto.
+    + apply notify_result_Inv; auto.
+    + apply Inv_error.
+Qed.
+
+Lemma Inv_initial mb aw : Inv (initial mb aw).
+Proof. unfold Inv, initial; cbn. intros _ s Hs. discriminate Hs. Qed.
+
+(* the machine never panics, and every reachable state satisfies the invariant *)
+Lemma run_total : forall evs st, Inv st -> exists st', run evs st = Val st' /\ Inv st'.
+Proof.
+  induction evs as [|ev evs IH]; intros st HI; cbn [Select.run].
+  - eauto.
+  - destruct (apply_event_total ev st HI) as (st1 & -> & HI1). cbn [obind]. apply IH; auto.
+Qed.
+
+(* ---------------------------------------------------------------- the property lemmas *)
+(* cursor_skips_only_rejected, on every reachable state *)
+Lemma cursor_skips_only_rejected_reach mb0 aw0 evs st s :
+  run evs (initial mb0 aw0) = Val st -> p_error st = None -> p_sel st = Some s ->
+  forall r c t, nth_recv written r = Some (c, t) ->
+  forall j m, j < cur_get r (ss_cursors s) -> nth_error (p_mailbox st) j = Some m ->
+  compat c m = false \/ (t = false /\ verdict_of r m = VdNil).
+Proof.
+  intros Hrun Herr Hsel r c t Hsrc j m Hj Hm.
+  destruct (run_total evs (initial mb0 aw0) (Inv_initial mb0 aw0)) as (st' & Hrun' & HI).
+  rewrite Hrun in Hrun'. inversion Hrun'; subst st'.
+  destruct (HI Herr s Hsel) as (_ & _ & Hsk & _).
+  specialize (Hsk r c t Hsrc j m Hj Hm). unfold SelectSpec.accepts in Hsk.
+  destruct (compat c m); auto. destruct t; [discriminate|]. auto.
+Qed.
+
+(* a step that turns "no value yet" into "value v" is a completing entry of an active select *)
+Lemma completing_is_active now st st' v :
+  step now st = Val st' -> p_value st = None -> p_value st' = Some v ->
+  exists s, active now st s /\ (forall r m e, ss_receiving s = Some (r, m) -> verdict_of r m <> VdErr e).
+Proof.
+  intros Hstep Hv0 Hv1.
+  destruct (check_expired_fields now st) as (Fmb & Faw & Fsel & Fval & Ferr).
+  unfold Select.step in Hstep.
+  destruct (p_queued (check_expired now st)) eqn:Hq; cbn [negb] in Hstep.
+  2:{ inversion Hstep; subst. congruence. }
+  rewrite Ferr in Hstep. destruct (p_error st) as [pe|] eqn:Herr.
+  { inversion Hstep; subst. cbn in Hv1. congruence. }
+  rewrite Fval, Hv0 in Hstep.
+  rewrite Fsel in Hstep. destruct (p_sel st) as [s|] eqn:Hsel.
+  2:{ inversion Hstep; subst. unfold initialize_select in Hv1.
+      destruct (pids_of written); cbn in Hv1; congruence. }
+  exists s. split; [repeat split; auto|].
+  intros r m e Hr Hvd. rewrite Hr, Hvd in Hstep. inversion Hstep; subst. cbn in Hv1. congruence.
+Qed.
+
+Lemma select_refines_spec_step now st st' v :
+  Inv st -> step now st = Val st' -> p_value st = None -> p_value st' = Some v ->
+  exists s, p_sel st = Some s /\
+    select_spec written (p_mailbox st) (p_awaiting st) (start_of s now) now = Complete v (p_mailbox st').
+Proof.
+  intros HI Hstep Hv0 Hv1.
+  destruct (completing_is_active now st st' v Hstep Hv0 Hv1) as (s & Hact & Hne).
+  destruct (check_expired_fields now st) as (Fmb & Faw & Fsel & Fval & Ferr).
+  exists s. split; [apply Hact|].
+  destruct (active_entry now st s HI Hact Hne)
+    as [(v' & mb' & Hspec & Hs)|[(s' & _ & _ & Hs)|[(s' & _ & _ & Hs)|(e & s' & _ & Hs)]]];
+    rewrite Hs in Hstep; inversion Hstep; subst st'; cbn in Hv1; try congruence.
+  inversion Hv1; subst v'. cbn. exact Hspec.
+Qed.
+
+(* a step that parks a runnable, live process (queued before, not queued and not dead after) *)
+Lemma parks_only_when_spec_waits_step now st st' s :
+  Inv st -> step now st = Val st' -> active now st s ->
+  p_queued st' = false -> p_error st' = None ->
+  select_spec written (p_mailbox st) (p_awaiting st) (start_of s now) now = Wait.
+Proof.
+  intros HI Hstep Hact Hq' He'.
+  destruct (check_expired_fields now st) as (Fmb & Faw & Fsel & Fval & Ferr).
+  assert (Hne : forall r m e, ss_receiving s = Some (r, m) -> verdict_of r m <> VdErr e).
+  { intros r m e Hr Hvd. destruct Hact as (Hq & Herr & Hval & Hsel).
+    unfold Select.step in Hstep. rewrite Hq, Ferr, ?Herr, Fval, ?Hval, Fsel, ?Hsel, Hr, Hvd in Hstep.
+    cbn [negb] in Hstep. inversion Hstep; subst. cbn in He'. discriminate. }
+  destruct (active_entry now st s HI Hact Hne)
+    as [(v' & mb' & Hspec & Hs)|[(s' & _ & _ & Hs)|[(s' & Hspec & _ & Hs)|(e & s' & _ & Hs)]]];
+    rewrite Hs in Hstep; inversion Hstep; subst st'; cbn in Hq', He'; auto; try discriminate.
+  - destruct Hact as (Hq & _). congruence.
+  - destruct Hact as (Hq & _). congruence.
+Qed.
+
+(* a step that kills a live process with an executor error: either the entry itself failed and
+   the spec says Fail on this entry's state, or the popped verdict was a filter error *)
+Lemma fails_only_when_spec_fails_step now st st' s e :
+  Inv st -> step now st = Val st' -> active now st s ->
+  p_error st' = Some (PErr e) ->
+  (exists r m, ss_receiving s = Some (r, m) /\ verdict_of r m = VdErr e) \/
+  select_spec written (p_mailbox st) (p_awaiting st) (start_of s now) now = Fail e.
+Proof.
+  intros HI Hstep Hact He'.
+  destruct (check_expired_fields now st) as (Fmb & Faw & Fsel & Fval & Ferr).
+  destruct (ss_receiving s) as [[r0 m0]|] eqn:Ercv.
+  - destruct (verdict_of r0 m0) as [n| |e0] eqn:Evd.
+    3:{ left. exists r0, m0. split; auto.
+        destruct Hact as (Hq & Herr & Hval & Hsel).
+        unfold Select.step in Hstep. rewrite Hq, Ferr, ?Herr, Fval, ?Hval, Fsel, ?Hsel, Ercv, Evd in Hstep.
+        cbn [negb] in Hstep. inversion Hstep; subst. cbn in He'. congruence. }
+    all: right.
+    all: assert (Hne : forall r m e, ss_receiving s = Some (r, m) -> verdict_of r m <> VdErr e)
+        by (intros r m e1 Heq; rewrite Ercv in Heq; inversion Heq; subst; rewrite Evd; discriminate).
+    all: destruct (active_entry now st s HI Hact Hne)
+        as [(v' & mb' & _ & Hs)|[(s' & _ & _ & Hs)|[(s' & _ & _ & Hs)|(e1 & s' & Hspec & Hs)]]];
+        rewrite Hs in Hstep; inversion Hstep; subst st'; cbn in He'; destruct Hact as (_ & Herr & _); try congruence.
+  - right.
+    assert (Hne : forall r m e, ss_receiving s = Some (r, m) -> verdict_of r m <> VdErr e)
+        by (intros r m e1 Heq; rewrite Ercv in Heq; discriminate Heq).
+    destruct (active_entry now st s HI Hact Hne)
+        as [(v' & mb' & _ & Hs)|[(s' & _ & _ & Hs)|[(s' & _ & _ & Hs)|(e1 & s' & Hspec & Hs)]]];
+        rewrite Hs in Hstep; inversion Hstep; subst st'; cbn in He'; destruct Hact as (_ & Herr & _); try congruence.
+Qed.
+
+(* ... and a filter is only ever CALLED on a message for which the spec, on the calling entry's
+   state, depends on that verdict: if the verdict is an error the spec already says Fail *)
+Lemma failing_filter_called_only_when_spec_fails_step now st st' s s' r m e :
+  Inv st -> step now st = Val st' -> active now st s ->
+  (forall r m e, ss_receiving s = Some (r, m) -> verdict_of r m <> VdErr e) ->
+  p_error st' = None -> p_value st' = None -> p_queued st' = true ->
+  p_sel st' = Some s' -> ss_receiving s' = Some (r, m) -> verdict_of r m = VdErr e ->
+  select_spec written (p_mailbox st) (p_awaiting st) (start_of s now) now = Fail e.
+Proof.
+  intros HI Hstep Hact Hne He' Hv' Hq' Hs' Hr Hvd.
+  destruct (active_entry now st s HI Hact Hne)
+    as [(v' & mb' & _ & Hs)|[(s2 & _ & (r1 & m1 & Hr1 & Hfail) & Hs)|[(s2 & _ & _ & Hs)|(e1 & s2 & _ & Hs)]]];
+    rewrite Hs in Hstep; inversion Hstep; subst st'; cbn in He', Hv', Hq', Hs'; try discriminate.
+  inversion Hs'; subst s2. rewrite Hr in Hr1. inversion Hr1; subst. apply Hfail. exact Hvd.
+Qed.
+
+(* ---------------------------------------------------------------- run-level statements *)
+Theorem select_refines_spec mb0 aw0 evs st now st' v :
+  run evs (initial mb0 aw0) = Val st ->
+  step now st = Val st' -> p_value st = None -> p_value st' = Some v ->
+  exists s, p_sel st = Some s /\
+    select_spec written (p_mailbox st) (p_awaiting st) (start_of s now) now = Complete v (p_mailbox st').
+Proof.
+  intros Hrun. destruct (run_total evs (initial mb0 aw0) (Inv_initial mb0 aw0)) as (st1 & Hrun' & HI).
+  rewrite Hrun in Hrun'. inversion Hrun'; subst st1. apply select_refines_spec_step; auto.
+Qed.
+
+Theorem parks_only_when_spec_waits mb0 aw0 evs st now st' s :
+  run evs (initial mb0 aw0) = Val st ->
+  step now st = Val st' -> active now st s -> p_queued st' = false -> p_error st' = None ->
+  select_spec written (p_mailbox st) (p_awaiting st) (start_of s now) now = Wait.
+Proof.
+  intros Hrun. destruct (run_total evs (initial mb0 aw0) (Inv_initial mb0 aw0)) as (st1 & Hrun' & HI).
+  rewrite Hrun in Hrun'. inversion Hrun'; subst st1. apply parks_only_when_spec_waits_step; auto.
+Qed.
+
+Theorem fails_only_when_spec_fails mb0 aw0 evs st now st' s e :
+  run evs (initial mb0 aw0) = Val st ->
+  step now st = Val st' -> active now st s -> p_error st' = Some (PErr e) ->
+  (exists r m, ss_receiving s = Some (r, m) /\ verdict_of r m = VdErr e) \/
+  select_spec written (p_mailbox st) (p_awaiting st) (start_of s now) now = Fail e.
+Proof.
+  intros Hrun. destruct (run_total evs (initial mb0 aw0) (Inv_initial mb0 aw0)) as (st1 & Hrun' & HI).
+  rewrite Hrun in Hrun'. inversion Hrun'; subst st1. apply fails_only_when_spec_fails_step; auto.
+Qed.
+
+Theorem failing_filter_called_only_when_spec_fails mb0 aw0 evs st now st' s s' r m e :
+  run evs (initial mb0 aw0) = Val st ->
+  step now st = Val st' -> active now st s ->
+  (forall r m e, ss_receiving s = Some (r, m) -> verdict_of r m <> VdErr e) ->
+  p_error st' = None -> p_value st' = None -> p_queued st' = true ->
+  p_sel st' = Some s' -> ss_receiving s' = Some (r, m) -> verdict_of r m = VdErr e ->
+  select_spec written (p_mailbox st) (p_awaiting st) (start_of s now) now = Fail e.
+Proof.
+  intros Hrun. destruct (run_total evs (initial mb0 aw0) (Inv_initial mb0 aw0)) as (st1 & Hrun' & HI).
+  rewrite Hrun in Hrun'. inversion Hrun'; subst st1. apply failing_filter_called_only_when_spec_fails_step; auto.
+Qed.
+
+Theorem machine_never_panics mb0 aw0 evs : exists st, run evs (initial mb0 aw0) = Val st.
+Proof. destruct (run_total evs (initial mb0 aw0) (Inv_initial mb0 aw0)) as (st & H & _). eauto. Qed.
+
+(* ---------------------------------------------------------------- the taken message *)
+Lemma pick_shape r c t : forall mb m rest,
+  pick_msg r c t mb = Picked m rest -> exists l1 l2, mb = l1 ++ m :: l2 /\ rest = l1 ++ l2.
+Proof.
+  induction mb as [|a mb IH]; intros m rest H; cbn in H; [discriminate|].
+  destruct (accepts r c t a).
+  - inversion H; subst. exists []. eexists. split; reflexivity.
+  - destruct (pick_msg r c t mb) as [x rest'| |] eqn:E; try discriminate.
+    inversion H; subst. destruct (IH _ _ eq_refl) as (l1 & l2 & -> & ->).
+    exists (a :: l1), l2. auto.
+  - discriminate.
+Qed.
+
+(* untaken_preserved_in_order: a completion either leaves the mailbox alone or removes exactly
+   one occurrence of the message it yields, keeping the order of all others *)
+Lemma spec_complete_shape : forall srcs r mb aw start now v mb',
+  select_spec_from srcs r mb aw start now = Complete v mb' ->
+  mb' = mb \/ exists m l1 l2, v = VMsg m /\ mb = l1 ++ m :: l2 /\ mb' = l1 ++ l2.
+Proof.
+  induction srcs as [|[p|c t|d|e] rest IH]; intros r mb aw start now v mb' H; cbn in H; try discriminate.
+  - destruct (aw_get p aw) as [[x|]|]; [inversion H; auto| |]; eapply IH; eauto.
+  - destruct (pick_msg r c t mb) as [m rest'| |] eqn:E; try discriminate.
+    + inversion H; subst. right. destruct (pick_shape _ _ _ _ _ _ E) as (l1 & l2 & -> & ->). exists m, l1, l2. repeat split; reflexivity.
+    + eapply IH; eauto.
+  - destruct (timeout_ready d start now); [inversion H; auto|]. eapply IH; eauto.
+Qed.
+
+Theorem untaken_preserved_in_order mb0 aw0 evs st now st' v :
+  run evs (initial mb0 aw0) = Val st ->
+  step now st = Val st' -> p_value st = None -> p_value st' = Some v ->
+  p_mailbox st' = p_mailbox st \/
+  exists m l1 l2, v = VMsg m /\ p_mailbox st = l1 ++ m :: l2 /\ p_mailbox st' = l1 ++ l2.
+Proof.
+  intros Hrun Hstep Hv0 Hv1.
+  destruct (select_refines_spec _ _ _ _ _ _ _ Hrun Hstep Hv0 Hv1) as (s & _ & Hspec).
+  apply spec_complete_shape in Hspec. exact Hspec.
+Qed.
+
+(* a nil completion comes from a nil-valued awaited result or from a ready timeout *)
+Lemma spec_nil_source : forall srcs r mb aw start now mb',
+  select_spec_from srcs r mb aw start now = Complete VNil mb' ->
+  (exists p, In (SrcProc p) srcs /\ aw_get p aw = Some (Some VNil)) \/
+  (exists d, In (SrcTimeout d) srcs /\ timeout_ready d start now = true).
+Proof.
+  induction srcs as [|[p|c t|d|e] rest IH]; intros r mb aw start now mb' H; cbn in H; try discriminate.
+  - destruct (aw_get p aw) as [[x|]|] eqn:E.
+    + inversion H; subst. left. exists p. split; [left; auto|auto].
+    + destruct (IH _ _ _ _ _ _ H) as [(q & Hin & Hq)|(d & Hin & Hd)]; [left; exists q|right; exists d]; split; auto; right; auto.
+    + destruct (IH _ _ _ _ _ _ H) as [(q & Hin & Hq)|(d & Hin & Hd)]; [left; exists q|right; exists d]; split; auto; right; auto.
+  - destruct (pick_msg r c t mb) as [m rest'| |] eqn:E; try discriminate.
+    destruct (IH _ _ _ _ _ _ H) as [(q & Hin & Hq)|(d & Hin & Hd)]; [left; exists q|right; exists d]; split; auto; right; auto.
+  - destruct (timeout_ready d start now) eqn:E.
+    + right. exists d. split; [left; auto|auto].
+    + destruct (IH _ _ _ _ _ _ H) as [(q & Hin & Hq)|(d' & Hin & Hd)]; [left; exists q|right; exists d']; split; auto; right; auto.
+Qed.
+
+(* ---------------------------------------------------------------- timeouts *)
+Definition steps_ge (t0 : Z) (evs : list event) : Prop :=
+  Forall (fun ev => match ev with EStep t => (t0 <= t)%Z | _ => True end) evs.
+
+Definition start_ge (t0 : Z) (st : proc) : Prop :=
+  forall s t, p_sel st = Some s -> ss_start s = Some t -> (t0 <= t)%Z.
+
+Lemma process_sources_start s0 rr start now aw : forall srcs r s mb,
+  match process_sources s0 rr start now aw srcs r s mb with
+  | SCalled s' | SPark s' | SError _ s' => ss_start s' = ss_start s
+  | _ => True
+  end.
+Proof.
+  induction srcs as [|[p|c t|d|e] rest IH]; intros r s mb; cbn [process_sources]; auto.
+  - destruct (aw_get p aw) as [[x|]|]; auto; apply IH.
+  - unfold handle_select_receive.
+    assert (Hscan : forall s1, match scan_mailbox r c t s0 s1 mb with
+                               | RCalled s' | RContinue s' | RErr _ s' => ss_start s' = ss_start s1
+                               | _ => True end).
+    { intros s1. unfold scan_mailbox.
+      destruct (scan c (skipn (cur_get r (ss_cursors s1)) mb) _ _); [destruct t; auto|].
+      - destruct (Nat.ltb r (length (ss_cursors s1))); auto.
+      - destruct (Nat.ltb _ _); auto. destruct (Nat.ltb r (length (ss_cursors s1))); auto. }
+    assert (Hgo : forall s1, ss_start s1 = ss_start s ->
+              match match scan_mailbox r c t s0 s1 mb with
+                    | RComplete v mb' => SComplete v mb'
+                    | RCalled s' => SCalled s'
+                    | RContinue s' => process_sources s0 rr start now aw rest (S r) s' mb
+                    | RErr e s' => SError e s'
+                    | RPanic n => SPanic n
+                    end with
+              | SCalled s' | SPark s' | SError _ s' => ss_start s' = ss_start s
+              | _ => True
+              end).
+    { intros s1 Hs1. specialize (Hscan s1).
+      destruct (scan_mailbox r c t s0 s1 mb) as [v mb'|s'|s'|e s'|n]; auto; try congruence.
+      specialize (IH (S r) s' mb).
+      destruct (process_sources s0 rr start now aw rest (S r) s' mb); auto; congruence. }
+    destruct (ss_receiving s0) as [[idx m]|]; [|apply Hgo; auto].
+    destruct (Nat.eqb idx r); [|apply Hgo; auto].
+    destruct rr as [[n|]|]; auto.
+    destruct (Nat.ltb r (length (ss_cursors s))); auto.
+    apply Hgo. reflexivity.
+  - destruct (timeout_ready d start now); auto. apply IH.
+Qed.
+
+Lemma step_start_ge t0 now st st' :
+  (t0 <= now)%Z -> start_ge t0 st -> step now st = Val st' -> start_ge t0 st'.
+Proof.
+  intros Hnow Hge Hstep.
+  destruct (check_expired_fields now st) as (Fmb & Faw & Fsel & Fval & Ferr).
+  unfold Select.step in Hstep.
+  destruct (negb (p_queued (check_expired now st))).
+  { inversion Hstep; subst. unfold start_ge. rewrite Fsel. exact Hge. }
+  destruct (p_error (check_expired now st)).
+  { inversion Hstep; subst. unfold start_ge. cbn. rewrite Fsel. exact Hge. }
+  destruct (p_value (check_expired now st)).
+  { inversion Hstep; subst. unfold start_ge. rewrite Fsel. exact Hge. }
+  rewrite Fsel in Hstep. destruct (p_sel st) as [s|] eqn:Hsel.
+  - assert (Hs : forall t, ss_start (with_start s (Some (match ss_start s with Some t => t | None => now end))) = Some t -> (t0 <= t)%Z).
+    { intros t Ht. cbn in Ht. inversion Ht; subst. destruct (ss_start s) eqn:E; auto. eapply Hge; eauto. }
+    destruct (match ss_receiving s with Some (r, m) => Some (verdict_of r m) | None => None end) as [[n| |e]|].
+    3:{ inversion Hstep; subst. unfold start_ge. cbn. rewrite Fsel. intros s1 t H1. inversion H1; subst. eapply Hge; eauto. }
+    all: match type of Hstep with context [process_sources ?a ?b ?c ?d ?e ?f ?g ?h ?i] =>
+           pose proof (process_sources_start a b c d e f g h i) as Hst;
+           destruct (process_sources a b c d e f g h i) end;
+         inversion Hstep; subst; unfold start_ge; cbn;
+         try (intros s1 t H1; discriminate H1);
+         try (intros s1 t H1 H2; inversion H1; subst; apply Hs; congruence).
+  - inversion Hstep; subst. unfold start_ge, initialize_select.
+    destruct (pids_of written); cbn; intros s1 t H1 H2; inversion H1; subst; cbn in H2; inversion H2; subst; auto.
+Qed.
+
+Lemma apply_event_start_ge t0 ev st st' :
+  match ev with EStep t => (t0 <= t)%Z | _ => True end ->
+  start_ge t0 st -> apply_event ev st = Val st' -> start_ge t0 st'.
+Proof.
+  intros Hev Hge H. destruct ev as [now|m|p v|p| |p r]; cbn [Select.apply_event] in H.
+  - eapply step_start_ge; eauto.
+  - inversion H; subst. unfold start_ge, wake. destruct (p_selecting _); cbn; exact Hge.
+  - inversion H; subst. unfold start_ge, notify_result, wake.
+    destruct (fix45 && _); destruct (p_selecting _); cbn; exact Hge.
+  - inversion H; subst. destruct (fix45 && _); unfold start_ge; cbn; exact Hge.
+  - inversion H; subst. unfold start_ge, wake. destruct (p_selecting _); cbn; exact Hge.
+  - destruct (aw_has p (p_awaiting st)); [destruct r|]; inversion H; subst; auto.
+    all: try (unfold start_ge, notify_result, wake; destruct (fix45 && _); destruct (p_selecting _); cbn; exact Hge).
+    all: try (unfold start_ge; cbn; exact Hge).
+Qed.
+
+Lemma run_start_ge t0 : forall evs st st',
+  steps_ge t0 evs -> start_ge t0 st -> run evs st = Val st' -> start_ge t0 st'.
+Proof.
+  induction evs as [|ev evs IH]; intros st st' Hall Hge H; cbn [Select.run] in H.
+  - inversion H; subst; auto.
+  - inversion Hall; subst.
+    destruct (apply_event ev st) as [st1| |] eqn:E; cbn [obind] in H; try discriminate.
+    eapply (IH st1 st'); auto. eapply apply_event_start_ge; eauto.
+Qed.
+
+Lemma eff_timeout_lower d : (Z.min d i64_max <= eff_timeout d)%Z.
+Proof.
+  unfold eff_timeout, to_i64_or_max, in_i64, i64_max.
+  destruct ((- two63 <=? d)%Z && (d <? two63)%Z) eqn:E.
+  - lia.
+  - lia.
+Qed.
+
+(* timeout_not_early: with a clock that never runs behind t0 (the time of the select's first
+   entry), a select that completes with nil although no awaited process returned nil does so no
+   earlier than the (clamped) duration of one of its timeouts after t0 *)
+Theorem timeout_not_early t0 mb0 aw0 evs st now st' :
+  steps_ge t0 evs -> (t0 <= now)%Z ->
+  run evs (initial mb0 aw0) = Val st ->
+  step now st = Val st' -> p_value st = None -> p_value st' = Some VNil ->
+  (forall p, aw_get p (p_awaiting st) <> Some (Some VNil)) ->
+  exists d, In (SrcTimeout d) written /\ (Z.min d i64_max <= now - t0)%Z /\ (eff_timeout d <= now - t0)%Z.
+Proof.
+  intros Hall Hnow Hrun Hstep Hv0 Hv1 Hnonil.
+  destruct (select_refines_spec _ _ _ _ _ _ _ Hrun Hstep Hv0 Hv1) as (s & Hsel & Hspec).
+  assert (Hge : start_ge t0 st).
+  { eapply run_start_ge; eauto. unfold start_ge, initial; cbn. intros s1 t H1. discriminate H1. }
+  apply spec_nil_source in Hspec. destruct Hspec as [(p & _ & Hp)|(d & Hin & Hd)].
+  - exfalso. eapply Hnonil; eauto.
+  - exists d. split; auto.
+    assert (Hstart : (t0 <= start_of s now)%Z).
+    { unfold start_of. destruct (ss_start s) eqn:E; auto. eapply Hge; eauto. }
+    unfold timeout_ready, elapsed in Hd. apply Z.leb_le in Hd.
+    pose proof (eff_timeout_lower d).
+    assert ((0 <= eff_timeout d)%Z) by (unfold eff_timeout; lia).
+    lia.
+Qed.
+
 End Refine.
+
+(* ---------------------------------------------------------------- the verdict is only a verdict *)
+(* two filter oracles that agree on accept / reject / fail, whatever non-nil value they return *)
+Definition same_verdict (a b : verdict) : Prop :=
+  match a, b with
+  | Truthy _, Truthy _ => True
+  | VdNil, VdNil => True
+  | VdErr e, VdErr e' => e = e'
+  | _, _ => False
+  end.
+
+Lemma process_sources_payload s0 n n' start now aw : forall srcs r s mb,
+  process_sources s0 (Some (Some n)) start now aw srcs r s mb =
+  process_sources s0 (Some (Some n')) start now aw srcs r s mb.
+Proof.
+  induction srcs as [|[p|c t|d|e] rest IH]; intros r s mb; cbn [process_sources]; auto.
+  - destruct (aw_get p aw) as [[x|]|]; auto.
+  - unfold handle_select_receive.
+    destruct (ss_receiving s0) as [[idx m]|].
+    + destruct (Nat.eqb idx r); auto.
+      destruct (scan_mailbox r c t s0 s mb); auto.
+    + destruct (scan_mailbox r c t s0 s mb); auto.
+  - destruct (timeout_ready d start now); auto.
+Qed.
+
+Lemma step_same_verdict fix45 v1 v2 written now st :
+  (forall r m, same_verdict (v1 r m) (v2 r m)) ->
+  step fix45 v1 written now st = step fix45 v2 written now st.
+Proof.
+  intros Hsame. unfold step.
+  destruct (negb (p_queued (check_expired now st))); auto.
+  destruct (p_error (check_expired now st)); auto.
+  destruct (p_value (check_expired now st)); auto.
+  destruct (p_sel (check_expired now st)) as [s|]; auto.
+  destruct (ss_receiving s) as [[r m]|]; auto.
+  specialize (Hsame r m). destruct (v1 r m) as [n| |e], (v2 r m) as [n'| |e']; cbn in Hsame; try contradiction; auto.
+  - rewrite (process_sources_payload _ n n'). reflexivity.
+  - subst. reflexivity.
+Qed.
+
+Theorem verdict_is_only_a_verdict fix45 v1 v2 written :
+  (forall r m, same_verdict (v1 r m) (v2 r m)) ->
+  forall evs st, run fix45 v1 written evs st = run fix45 v2 written evs st.
+Proof.
+  intros Hsame. induction evs as [|ev evs IH]; intros st; cbn [run]; auto.
+  assert (Hev : apply_event fix45 v1 written ev st = apply_event fix45 v2 written ev st).
+  { destruct ev; cbn [apply_event]; auto. apply step_same_verdict; auto. }
+  rewrite Hev. destruct (apply_event fix45 v2 written ev st); cbn [obind]; auto.
+Qed.
+
+(* ... and the specification itself never looks at the payload either *)
+Lemma pick_msg_same_verdict v1 v2 :
+  (forall r m, same_verdict (v1 r m) (v2 r m)) ->
+  forall r c t mb, pick_msg v1 r c t mb = pick_msg v2 r c t mb.
+Proof.
+  intros Hsame r c t. induction mb as [|a mb IHm]; cbn; auto.
+  unfold accepts. destruct (compat c a); [destruct t|]; cbn.
+  - reflexivity.
+  - specialize (Hsame r a). destruct (v1 r a), (v2 r a); cbn in Hsame; try contradiction; subst; auto.
+    rewrite IHm. reflexivity.
+  - rewrite IHm. reflexivity.
+Qed.
+
+Lemma select_spec_same_verdict v1 v2 :
+  (forall r m, same_verdict (v1 r m) (v2 r m)) ->
+  forall srcs mb aw start now, select_spec v1 srcs mb aw start now = select_spec v2 srcs mb aw start now.
+Proof.
+  intros Hsame srcs mb aw start now. unfold select_spec. generalize 0.
+  induction srcs as [|[p|c t|d|e] rest IH]; intros r; cbn; auto.
+  - destruct (aw_get p aw) as [[x|]|]; auto.
+  - rewrite (pick_msg_same_verdict v1 v2 Hsame). destruct (pick_msg v2 r c t mb); auto.
+  - destruct (timeout_ready d start now); auto.
+Qed.
+
+(* ---------------------------------------------------------------- F45: stale awaits *)
+(* `! [p0, 0]` : the select completes with nil (timeout 0); afterwards p0 fails *)
+Definition f45_written : list source := [SrcProc 0; SrcTimeout 0%Z].
+Definition f45_events : list event := [EStep 0%Z; EActive; EStep 0%Z; EFail 0].
+Definition no_verdict : nat -> msg -> verdict := fun _ _ => VdNil.
+
+(* "a process whose select has completed is not killed by the later failure of a process it
+   awaited in that select" *)
+Definition completed_select_survives (fix45 : bool) : Prop :=
+  forall verdict written evs mb st p st',
+    run fix45 verdict written evs (initial mb []) = Val st ->
+    p_value st <> None -> p_error st = None ->
+    apply_event fix45 verdict written (EFail p) st = Val st' ->
+    p_error st' = None.
+
+(* the code as it stands (Process.awaiting is never cleared; the kill is unconditional) *)
+Definition f45_state : proc :=
+  {| p_mailbox := []; p_awaiting := [(0, None)]; p_sel := None; p_queued := true; p_selecting := false;
+     p_value := Some VNil; p_error := None |}.
+
+Lemma f45_state_reached :
+  run false no_verdict f45_written [EStep 0%Z; EActive; EStep 0%Z] (initial [] []) = Val f45_state.
+Proof. vm_compute. reflexivity. Qed.
+
+Lemma stale_await_kills_refuted : ~ completed_select_survives false.
+Proof.
+  intros H.
+  assert (K : p_error (set_error f45_state (PAwaited 0)) = None).
+  { eapply (H no_verdict f45_written _ [] f45_state 0); [exact f45_state_reached|discriminate|reflexivity|reflexivity]. }
+  discriminate K.
+Qed.
+
+(* the same history under the repair *)
+Example stale_await_witness_repaired :
+  exists st, run true no_verdict f45_written f45_events (initial [] []) = Val st /\
+             p_value st = Some VNil /\ p_error st = None /\ p_awaiting st = [].
+Proof. eexists. vm_compute. repeat split. Qed.
+
+(* ---------------------------------------------------------------- non-vacuity *)
+(* `! [p0, &f, 50]` with a filter that rejects message 4, accepts message 2 (payload 77) and would
+   fail on message 3; mailbox [4;2] before the select; message 3 arrives after the first entry.
+   Entries: init (parks: awaits p0) - message wakes it - calls f on 4 - rejected, calls f on 2 -
+   accepted: completes with message 2, the mailbox keeps [4;3]. *)
+Definition ex_written : list source := [SrcProc 0; SrcRecv [0; 1; 2] false; SrcTimeout 50%Z].
+Definition ex_verdict : nat -> msg -> verdict :=
+  fun r m => match fst m with 2 => Truthy 77 | 3 => VdErr InvalidArgument | _ => VdNil end.
+Definition ex_events : list event := [EStep 0%Z; EMsg (3, 2); EStep 1%Z; EStep 2%Z].
+
+Example ex_select_completes :
+  exists st st',
+    run false ex_verdict ex_written ex_events (initial [(4, 0); (2, 1)] []) = Val st /\
+    p_value st = None /\
+    (exists s, p_sel st = Some s /\ ss_cursors s = [1] /\ ss_receiving s = Some (0, (2, 1)) /\ ss_start s = Some 1%Z) /\
+    step false ex_verdict ex_written 2%Z st = Val st' /\
+    p_value st' = Some (VMsg (2, 1)) /\ p_mailbox st' = [(4, 0); (3, 2)] /\
+    select_spec ex_verdict ex_written (p_mailbox st) (p_awaiting st) 1%Z 2%Z = Complete (VMsg (2, 1)) [(4, 0); (3, 2)].
+Proof.
+  eexists. eexists. vm_compute. repeat split. eexists. repeat split.
+Qed.
+
+(* a parked select with two sources whose timeout then fires, not early *)
+Example ex_timeout_fires :
+  exists st st',
+    run false no_verdict [SrcRecv [0] true; SrcTimeout 5%Z] [EStep 10%Z; EStep 10%Z; EStep 14%Z] (initial [(7, 1)] []) = Val st /\
+    p_selecting st = true /\ p_value st = None /\
+    step false no_verdict [SrcRecv [0] true; SrcTimeout 5%Z] 15%Z st = Val st' /\
+    p_value st' = Some VNil /\ p_mailbox st' = [(7, 1)].
+Proof. eexists. eexists. vm_compute. repeat split. Qed.
